@@ -81,11 +81,43 @@ def detect(d, props=None, seed=0):
     # against /repo before committing (the caller's business)
 
 
+def keep(d):
+    """copy a confirmed change into /verif/seeded/<id>/ (patch.diff, demo.py, meta.json)"""
+    meta = json.load(open(f"{d}/meta.json"))
+    if not (meta.get("confirmed") or {}).get("ok"):
+        print(d, "not confirmed: not kept")
+        return
+    name = os.path.basename(d)
+    dst = f"/verif/seeded/{name}"
+    os.makedirs(dst, exist_ok=True)
+    for f in ("patch.diff", "demo.py"):
+        shutil.copy(f"{d}/{f}", f"{dst}/{f}")
+    c = meta["confirmed"]
+    out = {
+        "id": name,
+        "property": meta["property"],
+        "what": meta.get("what"),
+        "needs_to_manifest": meta.get("needs"),
+        "files": meta.get("files"),
+        "origin": "independent sub-agent given only the property text and a scratch worktree of /repo",
+        "what_i_ran": {
+            "demo_on_unchanged_tree": c.get("demo_unchanged"),
+            "demo_on_changed_tree": c.get("demo_changed"),
+            "repository_suite_on_changed_tree": c.get("suite"),
+            "suite_cmd": c.get("suite_cmd"),
+            "repo_head": c.get("head"),
+        },
+        "detection": meta.get("detection", {}),
+    }
+    json.dump(out, open(f"{dst}/meta.json", "w"), indent=1)
+    print(d, "kept")
+
+
 if __name__ == "__main__":
     mode = sys.argv[1]
     for d in sys.argv[2:]:
         d = d.rstrip("/")
         try:
-            (confirm if mode == "confirm" else detect)(d)
+            {"confirm": confirm, "detect": detect, "keep": keep}[mode](d)
         except Exception as e:
             print(d, "ERROR", repr(e)[:300])
